@@ -165,6 +165,9 @@ func idxAlphabet(extra bool) (calls []e1.Call, ids [][]interface{}) {
 		add(cUpdate("d", "c", true, bD(), bD("$inc", bD("a", int32(1))), false)) // fails on strings / arrays at the k-th document
 		add(cUpdate("d", "c", false, bD("_id", int32(1)), bD("$set", bD("_id", int32(5))), false))
 		add(cDropColl("d", "c"))
+		// an array below an embedded document under a unique index (the reads after every step project below it)
+		ins(bD("_id", int32(11), "n", bD("t", bson.A{int32(1), int32(2), int32(3)}, "u", int32(1))))
+		uniq(bD("n.t", int32(1)), idxOpt{unique: true})
 	}
 	return
 }
